@@ -266,7 +266,14 @@ fn run(input: RunInput) -> ScenFuture {
                     let b = addrs[r.gen_range(0..addrs.len())];
                     let long = r.gen_bool(0.25);
                     let dur = if long { idle_ms + ka_ms + r.gen_range(0..2000) } else { r.gen_range(20..(idle_ms / 3)) };
-                    match r.gen_range(0..3) {
+                    match r.gen_range(0..4) {
+                        3 => {
+                            // buggify: the socket's send buffer is full for a while
+                            let d = r.gen_range(5..400);
+                            w.fabric.block_sends(a, w.now_ns() + d * 1_000_000);
+                            w.event("send-wouldblock-window");
+                            sleep_ms(d).await;
+                        }
                         0 if a != b => {
                             w.fabric.partition(a, b);
                             w.event(format!("partition {}", if long { "long" } else { "short" }));
